@@ -344,9 +344,9 @@ theorem ruleAutolink_depth {B : Nat} (hB : 2 ≤ B) {st st' : IState}
 /-- the node at index `idx` is not a wrapper (it is the opener marker) -/
 def HeavyAt (cs : List Node) (idx : Nat) : Prop := ∃ n, cs[idx]? = some n ∧ n.val.wcost = 1
 
-theorem matchInner_depth {B : Nat} (fns : Nat → Option Wrap) (mk : Char) (idx : Nat) :
+theorem matchInner_depth {B : Nat} (fns : Nat → Option Wrap) (mk : Char) (room idx : Nat) :
     ∀ (fuel : Nat) (opener : Marker) (ms : MatchSt) (opener' : Marker) (ms' : MatchSt),
-      matchInner fns mk idx fuel opener ms = .ok (opener', ms') →
+      matchInner fns mk room idx fuel opener ms = .ok (opener', ms') →
       DL B ms.children → (opener.remaining > 0 → HeavyAt ms.children idx) →
       DL B ms'.children ∧ (opener'.remaining > 0 → HeavyAt ms'.children idx) := by
   intro fuel
@@ -360,6 +360,10 @@ theorem matchInner_depth {B : Nat} (fns : Nat → Option Wrap) (mk : Char) (idx 
     unfold matchInner at h
     split at h
     · next hcond =>
+      -- the nesting-limit `break` returns the state unchanged
+      split at h
+      · simp only [Except.ok.injEq, Prod.mk.injEq] at h
+        obtain ⟨rfl, rfl⟩ := h; exact ⟨hd, hh⟩
       simp only at h
       split at h
       · simp only [Except.ok.injEq, Prod.mk.injEq] at h
@@ -423,8 +427,8 @@ theorem matchInner_depth {B : Nat} (fns : Nat → Option Wrap) (mk : Char) (idx 
     · simp only [Except.ok.injEq, Prod.mk.injEq] at h
       obtain ⟨rfl, rfl⟩ := h; exact ⟨hd, hh⟩
 
-theorem matchOuter_depth {B : Nat} (fns : Nat → Option Wrap) (mk : Char) (minIdx : Nat) :
-    ∀ (k : Nat) (ms ms' : MatchSt), matchOuter fns mk minIdx k ms = .ok ms' →
+theorem matchOuter_depth {B : Nat} (fns : Nat → Option Wrap) (mk : Char) (room minIdx : Nat) :
+    ∀ (k : Nat) (ms ms' : MatchSt), matchOuter fns mk room minIdx k ms = .ok ms' →
       DL B ms.children → DL B ms'.children := by
   intro k
   induction k with
@@ -435,6 +439,10 @@ theorem matchOuter_depth {B : Nat} (fns : Nat → Option Wrap) (mk : Char) (minI
     intro ms ms' h hm
     unfold matchOuter at h
     simp only at h
+    -- the read of `children[idx + 1]` (for `inner_depth`) changes no node
+    split at h
+    · simp at h
+    next nxt hnxt =>
     split at h
     · simp at h
     · next tok htok =>
@@ -447,7 +455,7 @@ theorem matchOuter_depth {B : Nat} (fns : Nat → Option Wrap) (mk : Char) (minI
         · next opener' ms1 hgo =>
           have hgo' : DL B ms1.children ∧ (opener'.remaining > 0 → HeavyAt ms1.children (minIdx + k)) := by
             split at hgo
-            · exact matchInner_depth fns mk _ _ _ _ _ _ hgo hm (fun _ => hheavy)
+            · exact matchInner_depth fns mk _ _ _ _ _ _ _ hgo hm (fun _ => hheavy)
             · simp only [Except.ok.injEq, Prod.mk.injEq] at hgo
               obtain ⟨rfl, rfl⟩ := hgo; exact ⟨hm, fun _ => hheavy⟩
           split at h
@@ -471,8 +479,9 @@ theorem matchOuter_depth {B : Nat} (fns : Nat → Option Wrap) (mk : Char) (minI
                 omega
           · exact ih _ _ h hgo'.1
 
-theorem scanAndMatch_depth {B : Nat} {fns : Nat → Option Wrap} {mk : Char} {cs out : List Node}
-    {b b' : List (Char × List Nat)} (h : scanAndMatch fns mk cs b = .ok (out, b'))
+theorem scanAndMatch_depth {B : Nat} {fns : Nat → Option Wrap} {mk : Char} {room : Nat}
+    {cs out : List Node}
+    {b b' : List (Char × List Nat)} (h : scanAndMatch fns mk room cs b = .ok (out, b'))
     (hc : DL B cs) : DL B out := by
   unfold scanAndMatch at h
   split at h
@@ -499,7 +508,7 @@ theorem scanAndMatch_depth {B : Nat} {fns : Nat → Option Wrap} {mk : Char} {cs
           · split at h
             · simp at h
             · next ms hms =>
-              have hok := matchOuter_depth fns mk _ _ _ _ hms hc.left
+              have hok := matchOuter_depth fns mk _ _ _ _ _ hms hc.left
               split at h
               · simp only [Except.ok.injEq, Prod.mk.injEq] at h; rw [← h.1]
                 refine hok.push (Nat.le_trans ?_ hct)
